@@ -603,4 +603,6 @@ def gen_roundoff(rng, tier, np):
 ROUNDOFF = Stream('reconpar_roundoff', 'h_reconpar', 'reconpar', gen_roundoff, oracle=oracle, np=[1, 2, 3],
                   whitebox=['ref_recon'], nontrivial=_nontriv, session='\x00none', timeout=600)
 
+for _s in (RECONPAR, ROUNDOFF):
+    _s.ops_file = True  # see run_impl in common.py: mpiexec's stdin forwarding is unreliable for large inputs
 STREAMS = [RECONPAR, ROUNDOFF]
